@@ -134,11 +134,13 @@ def ref_encode(t, v, o=PLAIN, tvmap=None):
     if k == "tuple_fixed":
         return [ref_encode(a, x, o, tvmap) for a, x in zip(flatten_tuple_args(ti.args, len(v)), v)]
     if k == "namedtuple":
+        tvmap = tinfo.scope(ti, tvmap)
         fs = tinfo.nt_fields(ti.type)
         if o.namedtuple_as_dict:
             return {n: ref_encode(ft, getattr(v, n), o, tvmap) for n, ft in fs}
         return [ref_encode(ft, getattr(v, n), o, tvmap) for n, ft in fs]
     if k == "typeddict":
+        tvmap = tinfo.scope(ti, tvmap)
         hints, req, opt = tinfo.td_keys(ti.type)
         out = {}
         for kk in req:
@@ -288,6 +290,7 @@ def ref_decode(t, d, tvmap=None, o=PLAIN):
     if k == "tuple_fixed":
         return decode_fixed_tuple(ti.args, d, tvmap, o)
     if k == "namedtuple":
+        tvmap = tinfo.scope(ti, tvmap)
         fs = tinfo.nt_fields(ti.type)
         defaults = getattr(ti.type, "_field_defaults", {})
         vals = []
@@ -310,6 +313,7 @@ def ref_decode(t, d, tvmap=None, o=PLAIN):
                 vals.append(ref_decode(ft, x, tvmap, o))
         return ti.type(*vals)
     if k == "typeddict":
+        tvmap = tinfo.scope(ti, tvmap)
         hints, req, opt = tinfo.td_keys(ti.type)
         out = {}
         for kk in req:
@@ -526,6 +530,7 @@ def conforms(t, r, tvmap=None, shallow=False):
                 return False
         return True
     if k == "namedtuple":
+        tvmap = tinfo.scope(ti, tvmap)
         if type(r) is not ti.type:
             return False
         if shallow:
@@ -535,6 +540,7 @@ def conforms(t, r, tvmap=None, shallow=False):
                 return False
         return True
     if k == "typeddict":
+        tvmap = tinfo.scope(ti, tvmap)
         if type(r) is not dict:
             return False
         if shallow:
